@@ -99,7 +99,7 @@ type c27Step struct {
 
 type c27Junk struct {
 	AtMs  int    `json:"at_ms"`
-	Kind  string `json:"kind"` // vn | short | badtoken | newinitial | hsjunk | zeros | replay-first | replay-last
+	Kind  string `json:"kind"` // vn | short | badtoken | newinitial | tinyinitial | hsjunk | zeros | replay-first | replay-last
 	Size  int    `json:"size"`
 	Spoof bool   `json:"spoof,omitempty"`
 }
@@ -312,9 +312,10 @@ func (o *c27Oracle) onSend(rec vlpDgramRec, b []byte) {
 			a.overshoots++
 			var key string
 			switch {
-			case strings.Contains(types, "I") && rec.Size == 1200 && before >= 128 && before < 1200:
-				// the datagram carries an Initial packet and was padded to exactly 1200 bytes
-				// although only 128..1199 bytes of allowance were left
+			case strings.Contains(types, "I") && strings.HasSuffix(types, "Z") && rec.Size == 1200 && before >= 128 && before < 1200 && int64(c27Unpadded(b)) <= before:
+				// the packets of this datagram (one of them an Initial) fit in the 128..1199
+				// bytes of allowance that were left; the zero padding of the datagram to
+				// exactly 1200 bytes is what exceeds it
 				key = "initial-datagram-padded-to-1200-beyond-partial-allowance"
 			case before < 128:
 				key = "sent-while-allowance-exhausted:" + c27First(types)
@@ -350,6 +351,15 @@ func (o *c27Oracle) onSend(rec vlpDgramRec, b []byte) {
 		a.retrySent = true
 	}
 	o.logf(c27Log{T: o.ms(), Dir: "s2c", Addr: rec.To.String(), Size: rec.Size, Fate: rec.Fate, Types: types, Note: note})
+}
+
+// c27Unpadded is the length of the datagram without its trailing zero bytes.
+func c27Unpadded(b []byte) int {
+	n := len(b)
+	for n > 0 && b[n-1] == 0 {
+		n--
+	}
+	return n
 }
 
 func c27First(types string) string {
@@ -579,7 +589,7 @@ func (m *c27Mitm) junk(rng *rand.Rand, j c27Junk) []byte {
 	put := func(h []byte) []byte {
 		// long header + 2-byte Length covering the rest of the datagram
 		rest := size - len(h) - 2
-		if rest < 20 {
+		if rest < 1 {
 			return b
 		}
 		h = append(h, 0x40|byte(rest>>8), byte(rest))
@@ -594,6 +604,8 @@ func (m *c27Mitm) junk(rng *rand.Rand, j c27Junk) []byte {
 		return b
 	case "badtoken": // Initial with a token nobody issued
 		return put(hdr(0, 1, rnd(8+rng.IntN(8)), rnd(rng.IntN(9)), rnd(1+rng.IntN(60))))
+	case "tinyinitial": // token-less Initial in a datagram far below 1200 bytes (must be discarded: RFC 9000 14.1)
+		return put(hdr(0, 1, rnd(8), nil, nil))
 	case "newinitial": // Initial with a fresh DCID and undecryptable payload
 		return put(hdr(0, 1, rnd(8+rng.IntN(8)), rnd(rng.IntN(9)), nil))
 	case "hsjunk": // Handshake-type packet for the client's connection, undecryptable
@@ -841,6 +853,9 @@ func c27Run(cfg *c27Config, viol func(key, detail string)) *c27Result {
 	mu.Unlock()
 	cliEP.Close(vlpCanceled())
 	srvEP.Close(vlpCanceled())
+	// let every connection loop finish (their last writes add delivery goroutines) before
+	// waiting for the delivery goroutines
+	synctest.Wait()
 	net.stopMu.Do(func() { close(net.stop) })
 	net.wg.Wait()
 	close(sink)
@@ -988,7 +1003,10 @@ func c27Gen(rng *rand.Rand, thorough bool) *c27Config {
 	}
 	for i := 0; i < nj; i++ {
 		j := c27Junk{AtMs: rng.IntN(cfg.RunS * 1000), Spoof: rng.IntN(3) == 0,
-			Kind: []string{"vn", "short", "badtoken", "newinitial", "hsjunk", "zeros", "replay-first", "replay-first", "replay-last"}[rng.IntN(9)]}
+			Kind: []string{"vn", "short", "badtoken", "newinitial", "hsjunk", "zeros", "replay-first", "replay-first", "replay-last", "tinyinitial"}[rng.IntN(10)]}
+		if cfg.Retry && rng.IntN(3) == 0 {
+			j.Kind = "tinyinitial"
+		}
 		switch rng.IntN(4) {
 		case 0:
 			j.Size = 22 + rng.IntN(1178)
@@ -996,6 +1014,9 @@ func c27Gen(rng *rand.Rand, thorough bool) *c27Config {
 			j.Size = 1200
 		default:
 			j.Size = 1200 + rng.IntN(273)
+		}
+		if j.Kind == "tinyinitial" {
+			j.Size = 21 + rng.IntN(30)
 		}
 		cfg.Junk = append(cfg.Junk, j)
 	}
@@ -1010,7 +1031,7 @@ func TestVerif_C27(t *testing.T) {
 	r.SetRule("case = PRNG (server certificate chain size -> size of the server's first flight; client datagram sizes 1200..1472 via datagram padding; ClientHello in 1 or 2 datagrams; Retry on/off; stateless-reset key on/off; server handshake timeout 10-600 s) x client behaviour {silent after k scripted datagrams (dropped / truncated / padded / duplicated / bit-flipped / delayed / spoofed-source), one-shot spoofed, honest over a lossy network, partially delivered flights then honest} x junk datagrams on a timeline (unknown version, short-header noise, bogus token, fresh undecryptable Initial, undecryptable Handshake, zeros), run between two real Endpoints in a synctest bubble for 12-300 virtual seconds (PTO back-offs). Oracle after EVERY server datagram: bytes sent to an address <= 3 x bytes delivered from it, until a datagram with a Handshake packet (or, after a Retry to that address, an Initial with a token) from that address has been delivered. non-trivial = the allowance of some unvalidated address dropped below 128 bytes (server blocked by the limit) at least once; distinct by (kind, chain bytes, per-address totals)")
 	r.Assume("datagram sizes and fates are taken from the fake network only; a datagram is credited when it is handed to the server endpoint's receive queue, debited when the server endpoint writes it")
 	r.Assume("validation is decided conservatively from unprotected header bits (first delivered Handshake-type packet, or Initial with a token after a Retry); harness-made junk with random payload is assumed not to pass AEAD")
-	n := r.N(260, 6000)
+	n := r.N(400, 6000)
 	var mu sync.Mutex
 	r.CasesParallel("amplification", n, 8, func(c *verifrt.Case) {
 		cfg := c27Gen(c.Rng, r.Thorough())
@@ -1080,7 +1101,9 @@ func TestVerif_C27(t *testing.T) {
 		} else if cfg.Tail == "deliver" {
 			r.Event("honest_handshakes_not_completed", 1)
 			r.Event("honest_handshakes_not_completed_"+cfg.Kind, 1)
-			r.Note("case %d (%s): handshake not completed in %d virtual s: dial error %v; steps %+v retry=%v big_ch=%v", c.Index, cfg.Kind, cfg.RunS, res.dialErr, cfg.Steps, cfg.Retry, cfg.BigClientHello)
+			if cfg.Kind == "honest-lossy" {
+				r.Note("case %d (%s): handshake not completed in %d virtual s: dial error %v; retry=%v big_ch=%v faults=%+v", c.Index, cfg.Kind, cfg.RunS, res.dialErr, cfg.Retry, cfg.BigClientHello, cfg.Faults)
+			}
 		}
 		r.Event("whitebox_conn_samples", int64(res.wbConns))
 		r.Event("whitebox_samples_blocked_(limit<128)", int64(res.wbBlocked))
